@@ -15,7 +15,7 @@ Definition code_fixed_F07 := true.   (* proposed_fixes/C07-F07.diff *)
 Definition code_fixed_F08 := true.   (* proposed_fixes/C07-F08.diff *)
 Definition code_fixed_N1 := true.    (* proposed_fixes/C06-N1.diff *)
 Definition code_fixed_N2 := true.    (* proposed_fixes/C06-N2.diff *)
-Definition code_fixed_N4 := false.    (* proposed_fixes/C06-N4.diff: test and store of a response in one critical section *)
+Definition code_fixed_N4 := true.    (* proposed_fixes/C06-N4.diff: test and store of a response in one critical section *)
 Definition code_fixes : fixes := mkFx code_fixed_F06 code_fixed_F07 code_fixed_F08 code_fixed_N1 code_fixed_N2.
 
 Notation zserver := (server Z).
